@@ -40,6 +40,11 @@ PROPS = {
                 suites=[S('db-optskv', (64, 120), (1600, 200)), S('db-optsmixed', (64, 120), (1600, 200))],
                 assumptions=['cases come in groups of 16 (key/value scripts: RWMode x StartFileLoadingMode x SyncEnable x the two RAM index modes) or 8 (all structures, key+value mode) that run the same generated script; each run is compared with the one model, which forgets the I/O options at Open',
                              'sparse index mode is not modelled: its agreement on key/value operations is not checked']),
+    'C20': dict(modules=['NutsProofs.Props.C20'],
+                suites=[S('api-fuzz', (60, 200), (1500, 250)), S('db-mixed', (30, 150), (600, 200)), S('db-kv', (30, 150), (600, 200)),
+                        S('db-structs', (20, 150), (500, 200)), S('list-ds', (80, 40), (2000, 60))],
+                assumptions=['panic-freedom is proved for the regenerated integer kernels (all machine integers) and for finished transactions in the model; panics the Go runtime can raise in code the model abstracts (nil maps/files, NaN ordering in the skiplist, regexp) are searched by the api-fuzz suite (a search, labelled as such), not proved',
+                             'lists shorter than 2^62 elements']),
     'C21': dict(modules=['NutsProofs.Props.C21'],
                 suites=[S('codec', (4, 500), (40, 4000), env_thorough={'VERIF_CODEC_ALLBITS': '1'})],
                 assumptions=['field values within their Go types (sizes < 2^32, ids and timestamps < 2^64); keys non-empty (tx.put rejects empty keys)',
